@@ -10,7 +10,7 @@
    outside the view, for all 64-bit index values (C13 theorems, restated).  Object lifetimes,
    uninitialised storage and allocator behaviour are outside the model (sanitizer runs only). *)
 From Coq Require Import List NArith ZArith Arith Bool.
-From BSpl Require Import Scalar Outcome Support Poly Spline Ops Forms Generator Interp Spec Spec_Ops Spec_Gen Proofs_Support Proofs_Scalar Proofs_Poly Proofs_Binom Proofs_Eval Proofs_Outcome Proofs_Spline Proofs_Forms Proofs_Ops Proofs_Forms2 Proofs_Interp Proofs_Pred Proofs_Gen Instances Instances_Ext Proofs_Valid Solver Pool Quad Proofs_Pool Proofs_Quad.
+From BSpl Require Import Scalar Outcome Support Poly Spline Ops Forms Generator Interp Spec Spec_Ops Spec_Gen Proofs_Support Proofs_Scalar Proofs_Poly Proofs_Binom Proofs_Eval Proofs_Outcome Proofs_Spline Proofs_Forms Proofs_Ops Proofs_Forms2 Proofs_Interp Proofs_Pred Proofs_Gen Instances Instances_Ext Proofs_Valid Solver Pool Quad Proofs_Pool Proofs_Quad Proofs_Sites.
 Import ListNotations.
 
 
@@ -99,6 +99,10 @@ Theorem C09_eval_total :
            Laws K -> forall (s : spline F) (x : F), SplInv s -> exists v : F, spl_eval s x = Ok v.
 Proof. exact (@Proofs_Eval.seval_total). Qed.
 
+Theorem C09_sites_covered :
+    forallb site_covered Sites.unchecked_sites = true.
+Proof. exact (@Proofs_Sites.sites_covered). Qed.
+
 
 Print Assumptions C09_no_ub.
 Print Assumptions C09_no_ub_history.
@@ -109,3 +113,4 @@ Print Assumptions C09_interval_index.
 Print Assumptions C09_relative_index.
 Print Assumptions C09_absolute_index.
 Print Assumptions C09_eval_total.
+Print Assumptions C09_sites_covered.
